@@ -35,13 +35,13 @@ def classes():
         "nmutils.Outer.Nested.Deeper": nmutils.Outer.Nested.Deeper, "nmpkg.nmutils.B": pn.B, "nmpkg.nmutils.Outer2.Nested2": pn.Outer2.Nested2,
         "nmfoo.Baz": nmfoo.Baz, "barnmfoo.Qux": barnmfoo.Qux, "mytyping.Lst": mytyping.Lst, "mytyping.HasNoneTypeInName": mytyping.HasNoneTypeInName,
         "fxh.Base": fxh.Base, "fxh.Outer.Inner": fxh.Outer.Inner, "own.Own": nmtarget.Own, "own.Own.OwnNested": nmtarget.Own.OwnNested,
-        "io.StringIO": _io_mod.StringIO, "io.BytesIO": _io_mod.BytesIO, "int": int, "str": str, "None": type(None), "float": float, "bytes": bytes,
+        "io.StringIO": _io_mod.StringIO, "io.BytesIO": _io_mod.BytesIO, "io.IOBase": _io_mod.IOBase, "io.UnsupportedOperation": _io_mod.UnsupportedOperation, "int": int, "str": str, "None": type(None), "float": float, "bytes": bytes,
     }
 
 
 CLASS_NAMES = ["nmutils.A", "nmutils.nmutils", "nmutils.Outer.Nested", "nmutils.Outer.Nested.Deeper", "nmpkg.nmutils.B", "nmpkg.nmutils.Outer2.Nested2",
                "nmfoo.Baz", "barnmfoo.Qux", "mytyping.Lst", "mytyping.HasNoneTypeInName", "fxh.Base", "fxh.Outer.Inner", "own.Own", "own.Own.OwnNested",
-               "io.StringIO", "io.BytesIO", "int", "str", "None", "float", "bytes"]
+               "io.StringIO", "io.BytesIO", "io.IOBase", "io.UnsupportedOperation", "int", "str", "None", "float", "bytes"]
 leaf = st.one_of(st.sampled_from(CLASS_NAMES).map(lambda n: ["c", n]), st.sampled_from(CLASS_NAMES[:14]).map(lambda n: ["c", n]),
                  st.sampled_from([["Any"], ["Callable"], ["Tuple0"], ["Iterator", ["Any"]]]))
 FIELDS = ["alpha", "beta", "gamma", "a", "b"]
@@ -62,7 +62,25 @@ def ext(sub):
     )
 
 
-types = st.recursive(leaf, ext, max_leaves=8)
+general_types = st.recursive(leaf, ext, max_leaves=8)
+
+
+def _flat_td(names):
+    return st.lists(st.sampled_from(names), min_size=1, max_size=2, unique=True).map(lambda ns: ["TD", [[n, ["c", "int"]] for n in ns], []])
+
+
+# two differently shaped TypedDicts that are siblings inside ONE container and share no parameter or field name: their
+# generated classes must get different names
+_wrap = st.sampled_from(["List", "Set", "opt", "bare"])
+sibling_tds = st.tuples(_flat_td(["alpha", "beta"]), _flat_td(["gamma", "opt1"]), _wrap, _wrap, st.sampled_from(["Tuple", "Dict", "Union"])).map(
+    lambda p: [p[4] if p[4] != "Dict" else "Tuple", [_w(p[0], p[2]), _w(p[1], p[3])]] if p[4] != "Dict" else ["Dict", _w(p[0], "bare" if p[2] in ("List", "Set") else "bare"), _w(p[1], p[3])])
+
+
+def _w(t, how):
+    return {"List": ["List", t], "Set": ["List", t], "opt": ["Union", [t, ["c", "None"]]], "bare": t}[how]
+
+
+types = st.one_of(general_types, general_types, general_types, sibling_tds)
 
 
 def build(s, C):
@@ -158,6 +176,52 @@ def td_under_undescended(T, under=False):
     return any(td_under_undescended(m, under or not desc) for m in oracle.args(T) if m is not Ellipsis and not isinstance(m, (list, tuple)))
 
 
+def td_nodes_with_identity(tspecs):
+    """every TypedDict node of the trace specs with (hint, identity path, shape): hint = nearest enclosing field name, else the
+    position's own name; identity path = (function, position, enclosing field names). Container indices are NOT part of it."""
+    out = []
+
+    def walk(s, func, pos, keys):
+        if s[0] == "TD":
+            hint = keys[-1] if keys else pos
+            out.append((hint, (func, pos, tuple(keys)), repr(s)))
+            for n, t in s[1] + s[2]:
+                walk(t, func, pos, keys + [n])
+            return
+        for e in s[1:]:
+            if isinstance(e, list):
+                if e and isinstance(e[0], str) and (e[0][0].isupper() or e[0] == "c"):
+                    walk(e, func, pos, keys)
+                else:
+                    for x in e:
+                        if isinstance(x, list) and x and isinstance(x[0], str) and (x[0][0].isupper() or x[0] == "c"):
+                            walk(x, func, pos, keys)
+
+    LF = live_funcs()
+    for fname, argspecs, ret, yld in tspecs:
+        fn = LF[fname]
+        params = [p for p in inspect.signature(fn).parameters if p not in ("self", "cls")]
+        for pname, sp in zip(params, argspecs):
+            walk(sp, fname, pname, [])
+        if ret is not None:
+            walk(ret, fname, "<return>", [])
+        if yld is not None and fname == "gen":
+            walk(yld, fname, "<yield>", [])
+    return out
+
+
+def name_coincidence(tspecs):
+    """trigger of the listed finding: two differently shaped TypedDicts whose class name hints coincide because of a
+    *name* - the same parameter name in two functions, or the same field name at two places - not merely because they are
+    siblings inside one container (those get an index suffix)"""
+    nodes = td_nodes_with_identity(tspecs)
+    for i, (h1, id1, sh1) in enumerate(nodes):
+        for h2, id2, sh2 in nodes[:i]:
+            if h1 == h2 and sh1 != sh2 and id1 != id2 and not (h1.startswith("<") and id1[0] != id2[0]):
+                return True
+    return False
+
+
 def classify_unresolved(ctx, spec, stub, text, imported_modules):
     """-> signature for an unresolved-name failure, by where the text sits"""
     wheres = {u[0] for u in stub["unresolved"]}
@@ -217,8 +281,11 @@ def check(ctx, tspecs, k):
             return ctx.fail("C11/typeddict-under-undescended-generic-rendered-as-DUMMY_NAME", spec, text[:1500])
         return ctx.fail("C11/DUMMY_NAME-in-stub", spec, text[:1500])
     if stub["dupes"]:
-        ctx.fail("C11/generated-typeddict-class-names-collide", spec, f"classes {sorted(set(stub['dupes']))} defined twice with different bodies\n{text[:1500]}")
-        return
+        if name_coincidence(tspecs):
+            ctx.fail("C11/generated-typeddict-class-names-collide", spec, f"classes {sorted(set(stub['dupes']))} defined twice with different bodies\n{text[:1500]}")
+            return
+        return ctx.fail("C11/typeddict-class-names-collide-without-a-name-coincidence", spec,
+                        f"classes {sorted(set(stub['dupes']))} defined twice with different bodies although no two TypedDicts share a parameter or field name\n{text[:1500]}")
     if stub["unresolved"]:
         bodyonly = all(u[0] == "typeddict-class-body" for u in stub["unresolved"])
         if bodyonly:
@@ -270,6 +337,8 @@ def strip_remnants(text):
     """remnants `R` such that some imported module M2 = R + M1 for another imported module M1 (M1 a textual suffix):
     stripping `M1.` from `M2.Cls` leaves `R` glued to what follows"""
     mods = set(import_table(text)) | {"nmtarget"}
+    if "io" in mods:
+        mods.add("_io")  # C-level io classes live in `_io`; the import block spells it `io` but both prefixes are stripped
     out = set()
     for m1 in mods:
         for m2 in mods:
